@@ -187,6 +187,24 @@ func mainCase(w *wire.Writer, rng *rand.Rand, in *annot.Input, ntimes int, class
 	if in.HasFilter {
 		w.Count("opt:filter")
 	}
+	if in.AsChildren {
+		w.Count("datasource:as_children")
+	}
+	for _, h := range in.Hists {
+		if h.Kind == 0 && len(h.Versions) == 0 {
+			w.Count("history:empty_without_error")
+			break
+		}
+	}
+	if in.IsRel {
+		kinds := map[osm.Type]bool{}
+		for _, p := range in.Parents {
+			for _, r := range p.Refs {
+				kinds[r.FID.Type()] = true
+			}
+		}
+		w.Count(fmt.Sprintf("relation_member_kinds:%d", len(kinds)))
+	}
 	if in.IgnoreIncons {
 		w.Count("opt:ignore_inconsistency")
 	}
@@ -294,6 +312,15 @@ func main() {
 	var canIn *annot.Input
 	var canO *annot.Outcome
 	var canObs []tobs
+	// corpus: minimised past failures first (known_findings.d/C11.json: empty history without error)
+	for k := 0; k < 4; k++ {
+		t0 := osm.CommitInfoStart.Add(100 * 24 * time.Hour)
+		in := &annot.Input{Threshold: 30 * time.Minute, Regime: "commit", IgnoreIncons: k&1 != 0, IgnoreMissing: k&2 != 0,
+			Parents: []annot.Parent{{Changeset: 1, Visible: true, Timestamp: t0, Committed: &t0, Refs: []annot.Ref{{FID: osm.NodeID(5).FeatureID()}}}},
+			Hists:   []annot.Hist{{FID: osm.NodeID(5).FeatureID(), Kind: 0}}}
+		c, _, _ := mainCase(w, rng, in, ntimes, "corpus")
+		w.Add(c)
+	}
 	for i := 0; i < n; i++ {
 		g := annot.GenOpts{MaxChildren: 6, MaxVersions: 8, Clean: rng.Intn(2) == 0, Ties: rng.Intn(6) == 0}
 		in := annot.Generate(rng, g)
